@@ -37,7 +37,9 @@
 (***************************************************************************)
 EXTENDS Naturals, Sequences, FiniteSets, TLC
 
-CONSTANTS Cfgs,          \* client configurations explored: [tls, sasl2, sasl, legacy]
+CONSTANTS Cfgs,          \* client configurations explored: [tls, sasl2, sasl, legacy, reg]
+                         \* (reg: a QXmppRegistrationManager with register-on-connect is installed,
+                         \*  with ("form") or without ("noform") a cached registration form; "none")
           FeatureSets,   \* <stream:features/> contents the server may send
           MaxConn,       \* bound on connections per behaviour
           MaxQ,          \* bound on unacknowledged stanzas remembered (state constraint)
@@ -163,6 +165,18 @@ AfterAuthFeatures(r, F) ==
     ELSE OpenSession(r1)
 
 \* handleStreamFeatures: STARTTLS decision first, then SASL 2, SASL, legacy auth, then the rest
+\* QXmppRegistrationManager::handleStanza with register-on-connect: the extension sees the
+\* features before the stream does (elementReceived is emitted first).  It drives the stream's
+\* own STARTTLS decision (handleStarttls) first -- which is what gives up when TLS is required
+\* and not offered --, then gives up if in-band registration is not advertised, otherwise sends
+\* the cached form (an <iq type='set'/> carrying user name and password) or asks for the form;
+\* the features never reach the stream's authentication.
+RegFeatures(r, F) ==
+    IF ~r.c.enc /\ cfg.tls = "Required" /\ F.tls = "absent" THEN LocalClose(r)
+    ELSE IF ~r.c.enc /\ cfg.tls # "Disabled" /\ F.tls # "absent" THEN Emit(SetLst(r, "Starttls"), "Starttls")
+    ELSE IF ~F.register THEN LocalClose(r)          \* QXmppClient::disconnectFromServer before any session
+    ELSE Emit(r, "Iq")
+
 HandleFeatures(r, F) ==
     IF ~r.c.enc /\ cfg.tls = "Required" /\ F.tls = "absent" THEN LocalClose(r)
     ELSE IF ~r.c.enc /\ cfg.tls # "Disabled" /\ F.tls # "absent" THEN Emit(SetLst(r, "Starttls"), "Starttls")
@@ -177,7 +191,7 @@ HandleFeatures(r, F) ==
 (* ---------------------------------------------------------------------- *)
 \* QXmppOutgoingClient::handleElement (listener = the client itself)
 CoreElement(r, e) ==
-    CASE e.k = "Features"   -> HandleFeatures(r, e.f)
+    CASE e.k = "Features"   -> IF cfg.reg # "none" THEN RegFeatures(r, e.f) ELSE HandleFeatures(r, e.f)
       [] e.k = "IqReply"    -> IF r.c.iq = "out" THEN [r EXCEPT !.c.iq = "done"] ELSE r   \* known id / plain iqReceived
       [] e.k \in {"IqOther", "AuthFields", "LegacyResult", "BindResult"} -> r           \* IQ result/error of no request: iqReceived
       [] e.k = "SeeOtherHost" -> SocketClose([r EXCEPT !.c.redirect = TRUE])
